@@ -78,6 +78,10 @@ func (r *volatileTaskRepo) MarkAsDispatched(ctx context.Context, id string) erro
 		if err != nil {
 			return err
 		}
+		if t, ok := r.record[id]; ok {
+			t.State = def.TaskDispatched
+			r.record[id] = t
+		}
 		return nil
 	}
 
